@@ -8,17 +8,7 @@ HERE = os.path.dirname(os.path.dirname(os.path.abspath(__file__)))
 
 TRUST = "Trusted: TLC/SANY and the Json community module, the Go toolchain, the projection functions of the harness (getters and guarded read-only accessors)."
 
-CHECKS = {
-    "C09": dict(
-        design_ref="DESIGN.md section 7, C09",
-        technique="TLA+ spec Journal.tla: TLC exhaustive design check + TLC-generated behaviours replayed on the real StateDB + TLC trace monitor and conformance spec",
-        text="Model checking of the snapshot/revert/finalise design (two journals, two revision lists) exhaustively to a bounded depth, "
-             "plus every bounded behaviour of a reduced alphabet and thousands of simulated rich behaviours stepped through the real "
-             "core/state.StateDB; a TLC monitor compares every observable after each Revert with the projection recorded at the Snapshot, "
-             "and a conformance trace spec re-executes each recorded step in the model (state projection and journal/revision-list lengths must match).",
-        note="Two accounts, two validators, amounts of 1-3 stake units, nesting depth bounded by behaviour length (<=30). Validator mutations use the staking "
-             "module's call pattern (PartialCopy + UpdateValidator). Roots are compared by replaying prefixes on fresh StateDBs. " + TRUST),
-}
+CHECKS = json.load(open(os.path.join(HERE, "bin", "checks_meta.json")))
 
 NOT_YET = "check not built yet (work in progress in this session; see DESIGN.md section 7 for the intended design)"
 
